@@ -169,7 +169,7 @@ def splitDump (s : String) : List (String × String) :=
     | [k, v] => some (k, v)
     | _ => none
 
-def ancestorsDurable (sp : Spec) (p : Path) : Bool := ancestorsAreDirs sp p
+def ancestorsDurable (sp : Spec) (p : Path) : Bool := ancestorsAreDirs sp.l p
 
 /-- paths at which two dumps disagree (`durableOnly`: the C07 ancestor rule) -/
 def dumpDiff (durableOnly : Bool) (sp : Spec) (specObs implObs : String) : List Path :=
